@@ -11,6 +11,7 @@ import (
 	"errors"
 	"fmt"
 	"runtime"
+	"sync/atomic"
 	"testing"
 	"time"
 
@@ -537,6 +538,8 @@ func TestVfC05Rollover(t *testing.T) {
 			return rtok
 		}
 		// waitWire waits for the query of token tok to appear and returns all wires it used so far
+		// early is polled while waiting: an exchange that has already returned (an error) will never send its query
+		var early func() error
 		waitWire := func(tok uint32) []vfWire {
 			deadline := time.Now().Add(vfStall)
 			var wires []vfWire
@@ -567,6 +570,11 @@ func TestVfC05Rollover(t *testing.T) {
 				if len(wires) > 0 {
 					return wires
 				}
+				if early != nil {
+					if err := early(); err != nil {
+						t.Fatalf("exchange %d returned without its query ever reaching a connection: %v (a healthy server is reachable: a fresh connection would have served it)", tok, err)
+					}
+				}
 				if time.Now().After(deadline) {
 					vfkit.Inconclusive("C05 rollover: query %d never appeared on a connection", tok)
 				}
@@ -578,7 +586,54 @@ func TestVfC05Rollover(t *testing.T) {
 			}
 		}
 		nLate, nAbandon := 0, 0
+		// one exchange stays in flight (unanswered, not abandoned) while its connection runs out of wire IDs: the
+		// connection cannot retire yet, and everybody else must be served on another one meanwhile
+		holdAt := rapid.IntRange(65300, 65530).Draw(t, "holdAt")
+		holdFor := rapid.IntRange(100, 400).Draw(t, "holdFor")
+		type heldExch struct {
+			wires    []vfWire
+			callerID uint16
+			tok      uint32
+			rc       chan *dnsmsg.Msg
+			errc     chan error
+			cancel   context.CancelFunc
+		}
+		var held *heldExch
 		for i := 0; i < total; i++ {
+			if i == holdAt {
+				h := &heldExch{callerID: 0xABCD, tok: 2000000, rc: make(chan *dnsmsg.Msg, 1), errc: make(chan error, 1)}
+				hq := vfQuery(h.callerID, h.tok)
+				hctx, hcancel := context.WithCancel(context.Background())
+				h.cancel = hcancel
+				go func() {
+					m, err := tr.ExchangeContext(hctx, hq)
+					h.rc <- m
+					h.errc <- err
+				}()
+				h.wires = waitWire(h.tok)
+				held = h
+			}
+			if held != nil && i == holdAt+holdFor {
+				w := held.wires[len(held.wires)-1]
+				if c := srv.snapshot()[w.conn]; !c.ClientClosed() {
+					deliver(w, held.tok)
+				}
+				select {
+				case m := <-held.rc:
+					err := <-held.errc
+					if m == nil {
+						t.Fatalf("the exchange that was in flight while its connection ran out of wire IDs failed although its reply was delivered on %v: %v", w, err)
+					}
+					if m.Header.ID != held.callerID {
+						t.Fatalf("held exchange: response ID %d, caller's ID %d", m.Header.ID, held.callerID)
+					}
+					dnsmsg.ReleaseMsg(m)
+				case <-time.After(vfStall):
+					vfkit.Inconclusive("C05 rollover: the held exchange stalled")
+				}
+				held.cancel()
+				held = nil
+			}
 			tok := uint32(i + 1)
 			callerID := uint16(i*7 + 3)
 			q := vfQuery(callerID, tok)
@@ -588,11 +643,22 @@ func TestVfC05Rollover(t *testing.T) {
 				err error
 			}
 			rc := make(chan res, 1)
+			var failedEarly atomic.Value
 			go func() {
 				m, err := tr.ExchangeContext(ctx, q)
+				if m == nil && err != nil {
+					failedEarly.Store(err)
+				}
 				rc <- res{m, err}
 			}()
+			early = func() error {
+				if e := failedEarly.Load(); e != nil {
+					return e.(error)
+				}
+				return nil
+			}
 			wires := waitWire(tok)
+			early = nil
 			w := wires[len(wires)-1]
 			// late replies to abandoned wires while this exchange is waiting
 			for len(lates) > 0 && i-lates[0].at >= lateGap {
